@@ -328,26 +328,38 @@ func init() {
 		saved := thorough
 		thorough = false
 		defer func() { thorough = saved }()
+		emit := func(line, suffix string) {
+			sc, ok := clParseScenario(strings.Fields(line)[1:])
+			if !ok {
+				return
+			}
+			out := clRunScenario(sc)
+			if out.bad || out.hang {
+				return
+			}
+			for _, l := range clPcTrace(out) {
+				g.Emit(l, strings.Count(l, "c") > 2, "pctrace"+suffix)
+			}
+			if l, ok := clLatestTrace(out, false); ok {
+				g.Emit(l, strings.Contains(l, ".c") || strings.Count(l, "b.") > 3, "trace"+suffix)
+			} else {
+				g.st.Tags["trace-not-expressible"]++
+			}
+		}
 		for i := 0; i < n; i++ {
 			line, _ := c14Scenario(g.Rand, wseed+uint64(i%5))
 			if i%5 == 4 {
 				line = c14StaleFlushScenario(g.Rand, wseed+uint64(i%5), true)
 			}
-			sc, ok := clParseScenario(strings.Fields(line)[1:])
-			if !ok {
-				continue
-			}
-			out := clRunScenario(sc)
-			if out.bad || out.hang {
-				continue
-			}
-			for _, l := range clPcTrace(out) {
-				g.Emit(l, strings.Count(l, "c") > 2, "pctrace")
-			}
-			if l, ok := clLatestTrace(out, false); ok {
-				g.Emit(l, strings.Contains(l, ".c") || strings.Count(l, "b.") > 3, "trace")
-			} else {
-				g.st.Tags["trace-not-expressible"]++
+			emit(line, "")
+		}
+		// deep trees under tile height 1 (see c14DeepParScenario): the machines do not see tile reads, so these traces
+		// are no harder to validate than the others; a couple per run (the worlds are expensive to build), last and
+		// from a generator of their own so that the stream of the scenarios above is unchanged
+		if n >= 50 {
+			r := &Rand{s: wseed*0x9e3779b97f4a7c15 + 0xdee7}
+			for i := 0; i < 2; i++ {
+				emit(c14DeepParScenario(r, wseed+uint64(i)), "/deep")
 			}
 		}
 	}
